@@ -420,9 +420,42 @@ func ruleC15(c *Ctx) {
 			}
 			ok := false
 			detail := "no MakeRange in a loop"
+			if loopCall == nil {
+				for _, ev := range in.Events {
+					if ev.Callee == "MakeRange" {
+						detail += fmt.Sprintf(" [%s loops=%d]", ev.Kind, len(ev.Loops))
+					}
+				}
+				detail += " warn=" + strings.Join(in.Warn, ";")
+			}
 			if loopCall != nil {
 				li, okl := loopCall.Loops[0].Frame.Loop(loopCall.Loops[0].Header)
 				a0, a1 := loopCall.Args[0], loopCall.Args[1]
+				detail = fmt.Sprintf("MakeRange(%s, %s) counted loop=%v", shortKey(a0), shortKey(a1), okl)
+				// the first stop of a range may be carried round the loop instead of being indexed again: a variable that
+				// starts as stops[0] and becomes, on the way round, the stop just used as the second one - by induction it
+				// is stops[i] in round i
+				if okl && a0.Op == "atom" && a1.Op == "index" {
+					lf := loopCall.Loops[0].Frame
+					if phi := phiOfAtom(lf, a0); phi != nil && phi.Block().Index == loopCall.Loops[0].Header {
+						pinit, pback := phiEdges(lf, phi)
+						detail += fmt.Sprintf(" carried: init=%s back=%s", argKeys(pinit), argKeys(pback))
+						i00, _ := li.Init.Int64()
+						first := false
+						if len(pinit) == 1 {
+							switch {
+							case pinit[0].Op == "index":
+								first = sameInt(pinit[0].Args[1], sym.Int(i00+li.Offset)) && strings.Contains(pinit[0].Args[0].Key(), "param:stops")
+							default:
+								// the element as first loaded from the caller's slice
+								first = strings.HasSuffix(pinit[0].Key(), fmt.Sprintf("param:stops[%d]", i00+li.Offset))
+							}
+						}
+						if first && len(pback) == 1 && sym.Eq(pback[0], a1) {
+							a0 = sym.Index(a1.Args[0], li.IndexVal, a0.T)
+						}
+					}
+				}
 				if okl && a0.Op == "index" && a1.Op == "index" {
 					i0 := a0.Args[1]
 					want := sym.Bin(tokADD, i0, sym.Int(1), types.Typ[types.Int])
